@@ -1,4 +1,5 @@
 import PsaDhcp.Model.Server
+import PsaDhcp.Model.Config
 import Driver.Util
 import Driver.Codec
 /-
@@ -253,5 +254,49 @@ def srvCmd (st : DState) (cmd : String) (a : Args) : Option (DState × String) :
   | "cfg" => cfgCmd a
   | "rx" => rxCmd st a
   | _ => if cmd.startsWith "cl." && cmd ≠ "cl.reset" && cmd ≠ "cl.push" && cmd ≠ "cl.pop" then clCmd st cmd a else dbCmd st cmd a
+
+end Driver
+
+namespace Driver
+open PsaDhcp
+
+def parseEnt (s : String) : Option Ent :=
+  if s = "e" then some .empty else if s = "b" then some .bad
+  else match unhex s with | some [a, b, c, d] => some (.ok ⟨a, b, c, d⟩) | _ => none
+
+def parseEnts (s : String) : Option (List Ent) := if s = "-" then some [] else (s.splitOn ",").mapM parseEnt
+
+def parseRawClient (s : String) : Option RawClient :=
+  match s.splitOn "/" with
+  | [mac, ip, router, dns, ntp, host] => do
+    let m ← if mac = "bad" then some none else (unhex mac).map some
+    pure { mac := m, ip := ← parseEnt ip, router := ← parseEnt router, dns := ← parseEnts dns, ntp := ← parseEnts ntp, hostname := ← unhex host }
+  | _ => none
+
+/-- `server.New` on a raw configuration (C18 stream). On success the driver's server state is set,
+so that `rx` operations can follow. -/
+def newcfgCmd (a : Args) : Option (DState × String) := do
+  let t ← a.int? "t"
+  let net ← a.get? "net"
+  let network : Option (Nat × Nat) ← if net = "bad" then some none else
+    match net.splitOn "/" with | [b, p] => do pure (some (← b.toNat?, ← p.toNat?)) | _ => none
+  let lease ← a.get? "lease"
+  let leaseV : Option Int ← if lease = "bad" then some none else lease.toInt?.map some
+  let dynS ← a.get? "dyn"
+  let dyn : RawDyn ← if dynS = "absent" then some .absent else if dynS = "fmt" then some .badFormat else if dynS = "badip" then some .badIp
+    else match dynS.splitOn "-" with
+      | [x, y] => do
+        let xa ← parseIp x
+        let ya ← parseIp y
+        pure (.range (← xa) (← ya))
+      | _ => none
+  let clientsS ← a.get? "clients"
+  let clients ← if clientsS = "-" then some [] else (clientsS.splitOn ";").mapM parseRawClient
+  let r : RawCfg := { selfIp := ← a.ip? "selfip", selfMac := ← a.hex? "selfmac", network := network, lease := leaseV, router := ← (a.get? "router").bind parseEnt,
+                      dns := ← (a.get? "dns").bind parseEnts, ntp := ← (a.get? "ntp").bind parseEnts, domain := ← a.hex? "domain", dyn := dyn,
+                      staticOnly := (← a.nat? "staticonly") = 1 }
+  match newServer clientsStore Clients.empty r clients t with
+  | .ok s => pure ({ db := s.db, cfg := some s.cfg }, "ok")
+  | .error _ => pure ({}, "err")
 
 end Driver
